@@ -89,7 +89,10 @@ def bonds_table(rng, n, edges, pos, agree, shuffle=True):
         if shuffle and len(info[i]) > 1:
             order = rng.permutation(len(info[i]))
             info[i] = [info[i][k] for k in order]
-    return {i: v for i, v in info.items() if v}
+    keys = [i for i, v in info.items() if v]
+    if shuffle and rng.random() < 0.5:
+        keys = [keys[int(k)] for k in rng.permutation(len(keys))]          # keys inserted in another order
+    return {i: info[i] for i in keys}
 
 
 def gen_displ(rng, cls, pos, info, atom):
